@@ -180,4 +180,418 @@ theorem scan_date (a b c d e f g h : Char)
   rw [scanAux, show List.drop 10 [a, b, c, d, '-', e, f, '-', g, h] = [] from rfl, firstMatch_nil]
   rfl
 
+
+/-! ## every rule consumes at least one character; the pinned lexicon leaves no remainder -/
+
+/-- a matcher makes progress: what remains is strictly shorter -/
+def Prog (m : Str → Option Str) : Prop := ∀ s r, m s = some r → r.length < s.length
+
+theorem startsWith_length : ∀ (s p : Str), startsWith s p = true → p.length ≤ s.length
+  | _, [], _ => by simp
+  | [], _ :: _, h => by simp [startsWith] at h
+  | a :: as, p :: ps, h => by
+    simp only [startsWith, Bool.and_eq_true] at h
+    have := startsWith_length as ps h.2
+    simp only [List.length_cons]; omega
+
+theorem lit_len (p s r : Str) (h : lit p s = some r) : r.length + p.length = s.length := by
+  unfold lit at h
+  split at h
+  · rename_i hs
+    simp only [Option.some.injEq] at h
+    subst h
+    have := startsWith_length s p hs
+    simp only [List.length_drop]; omega
+  · cases h
+
+theorem digitsN_len : ∀ (k : Nat) (s r : Str), digitsN k s = some r → r.length + k = s.length
+  | 0, s, r, h => by simp only [digitsN, Option.some.injEq] at h; subst h; rfl
+  | k + 1, [], r, h => by simp [digitsN] at h
+  | k + 1, c :: cs, r, h => by
+    simp only [digitsN] at h
+    split at h
+    · have := digitsN_len k cs r h
+      simp only [List.length_cons]; omega
+    · cases h
+
+theorem optMinus_le (s : Str) : (optMinus s).length ≤ s.length := by
+  unfold optMinus
+  split <;> simp
+
+theorem dropWhile_le (p : Char → Bool) : ∀ (s : Str), (s.dropWhile p).length ≤ s.length
+  | [] => by simp
+  | c :: cs => by
+    simp only [List.dropWhile]
+    split
+    · have := dropWhile_le p cs; simp only [List.length_cons]; omega
+    · simp
+
+theorem digits1_lt (s r : Str) (h : digits1 s = some r) : r.length < s.length := by
+  cases s with
+  | nil => simp [digits1] at h
+  | cons c cs =>
+    simp only [digits1] at h
+    split at h
+    · simp only [Option.some.injEq] at h; subst h
+      have := dropWhile_le isDigit cs
+      simp only [List.length_cons]; omega
+    · cases h
+
+theorem ncTail_le : ∀ (f : Nat) (s : Str), (ncTail f s).length ≤ s.length
+  | 0, s => by simp [ncTail]
+  | f + 1, [] => by simp [ncTail]
+  | f + 1, c :: cs => by
+    simp only [ncTail]
+    split
+    · have := ncTail_le f cs; simp only [List.length_cons]; omega
+    · split
+      · have := ncTail_le f (cs.drop 3)
+        simp only [List.length_drop, List.length_cons] at this ⊢; omega
+      · simp
+
+theorem ncName_lt (s r : Str) (h : ncName s = some r) : r.length < s.length := by
+  cases s with
+  | nil => simp [ncName] at h
+  | cons c cs =>
+    simp only [ncName] at h
+    split at h
+    · simp only [Option.some.injEq] at h; subst h
+      have := ncTail_le cs.length cs
+      simp only [List.length_cons]; omega
+    · split at h
+      · simp only [Option.some.injEq] at h; subst h
+        have := ncTail_le cs.length (cs.drop 3)
+        simp only [List.length_drop, List.length_cons] at this ⊢; omega
+      · cases h
+
+theorem qName_lt (s r : Str) (h : qName s = some r) : r.length < s.length := by
+  unfold qName at h
+  split at h
+  · cases h
+  · rename_i r2 h1
+    have l1 := ncName_lt s _ h1
+    split at h
+    · rename_i r3 h2
+      simp only [Option.some.injEq] at h; subst h
+      have := ncName_lt r2 _ h2
+      simp only [List.length_cons] at l1; omega
+    · simp only [Option.some.injEq] at h; subst h; exact l1
+  · rename_i r0 _ h1
+    simp only [Option.some.injEq] at h; subst h
+    exact ncName_lt s _ h1
+
+theorem optFrac_le (s : Str) : (optFrac s).length ≤ s.length := by
+  unfold optFrac
+  split
+  · split
+    · rename_i c r _
+      have := dropWhile_le isSpace r
+      simp only [List.length_cons]; omega
+    · simp
+  · simp
+
+theorem tz_len (r r3 : Str)
+    (h : ((digitsN 2 r).bind fun r1 => (lit [':'] r1).bind fun r2 => digitsN 2 r2) = some r3) :
+    r3.length + 5 = r.length := by
+  cases h1 : digitsN 2 r with
+  | none => simp [h1] at h
+  | some r1 =>
+    simp only [h1, Option.bind_some] at h
+    cases h2 : lit [':'] r1 with
+    | none => simp [h2] at h
+    | some r2 =>
+      simp only [h2, Option.bind_some] at h
+      have a := digitsN_len 2 r r1 h1
+      have b := lit_len [':'] r1 r2 h2
+      have c' := digitsN_len 2 r2 r3 h
+      simp only [List.length_cons, List.length_nil] at b; omega
+
+theorem optTz_le (s : Str) : (optTz s).length ≤ s.length := by
+  unfold optTz
+  split
+  · simp
+  · split
+    · split
+      · rename_i h
+        have := tz_len _ _ h
+        simp only [List.length_cons]; omega
+      · simp
+    · simp
+  · simp
+
+theorem mDate_len (s r : Str) (h : mDate s = some r) : r.length + 10 ≤ s.length := by
+  unfold mDate at h
+  cases h1 : digitsN 4 (optMinus s) with
+  | none => simp [h1] at h
+  | some r1 =>
+    simp only [h1, Option.bind_some] at h
+    cases h2 : lit ['-'] r1 with
+    | none => simp [h2] at h
+    | some r2 =>
+      simp only [h2, Option.bind_some] at h
+      cases h3 : digitsN 2 r2 with
+      | none => simp [h3] at h
+      | some r3 =>
+        simp only [h3, Option.bind_some] at h
+        cases h4 : lit ['-'] r3 with
+        | none => simp [h4] at h
+        | some r4 =>
+          simp only [h4, Option.bind_some] at h
+          have a := digitsN_len 4 _ _ h1
+          have b := lit_len _ _ _ h2
+          have c := digitsN_len 2 _ _ h3
+          have d := lit_len _ _ _ h4
+          have e := digitsN_len 2 _ _ h
+          have f := optMinus_le s
+          simp only [List.length_cons, List.length_nil] at b d; omega
+
+theorem mTime_len (s r : Str) (h : mTime s = some r) : r.length + 8 ≤ s.length := by
+  unfold mTime at h
+  cases h1 : digitsN 2 s with
+  | none => simp [h1] at h
+  | some r1 =>
+    simp only [h1, Option.bind_some] at h
+    cases h2 : lit [':'] r1 with
+    | none => simp [h2] at h
+    | some r2 =>
+      simp only [h2, Option.bind_some] at h
+      cases h3 : digitsN 2 r2 with
+      | none => simp [h3] at h
+      | some r3 =>
+        simp only [h3, Option.bind_some] at h
+        cases h4 : lit [':'] r3 with
+        | none => simp [h4] at h
+        | some r4 =>
+          simp only [h4, Option.bind_some] at h
+          cases h5 : digitsN 2 r4 with
+          | none => simp [h5] at h
+          | some r5 =>
+            simp only [h5, Option.map_some, Option.some.injEq] at h
+            subst h
+            have a := digitsN_len 2 _ _ h1
+            have b := lit_len _ _ _ h2
+            have c := digitsN_len 2 _ _ h3
+            have d := lit_len _ _ _ h4
+            have e := digitsN_len 2 _ _ h5
+            have f := optTz_le (optFrac r5)
+            have g := optFrac_le r5
+            simp only [List.length_cons, List.length_nil] at b d; omega
+
+theorem prog_lit (p : Str) (hp : 0 < p.length) : Prog (lit p) := by
+  intro s r h; have := lit_len p s r h; omega
+
+theorem prog_mDate : Prog mDate := by intro s r h; have := mDate_len s r h; omega
+theorem prog_mTime : Prog mTime := by intro s r h; have := mTime_len s r h; omega
+
+theorem prog_mDateTime : Prog mDateTime := by
+  intro s r h
+  unfold mDateTime at h
+  cases h1 : mDate s with
+  | none => simp [h1] at h
+  | some r1 =>
+    simp only [h1, Option.bind_some] at h
+    cases h2 : lit ['T'] r1 with
+    | none => simp [h2] at h
+    | some r2 =>
+      simp only [h2, Option.bind_some] at h
+      have a := mDate_len _ _ h1
+      have b := lit_len _ _ _ h2
+      have c := mTime_len _ _ h
+      omega
+
+theorem prog_mNumber : Prog mNumber := by
+  intro s r h
+  unfold mNumber at h
+  have hm := optMinus_le s
+  simp only at h
+  split at h
+  · rename_i r2 h1
+    simp only [Option.some.injEq] at h; subst h
+    have a := digits1_lt _ _ h1
+    have b := dropWhile_le isDigit r2
+    simp only [List.length_cons] at a; omega
+  · rename_i r1 _ h1
+    simp only [Option.some.injEq] at h; subst h
+    have a := digits1_lt _ _ h1
+    omega
+  · split at h
+    · rename_i r2 heq
+      have a := digits1_lt _ _ h
+      rw [heq] at hm
+      simp only [List.length_cons] at hm; omega
+    · cases h
+
+theorem prog_mOpsMath : Prog mOpsMath := by
+  intro s r h
+  unfold mOpsMath at h
+  split at h
+  · simp only [Option.some.injEq] at h; subst h; simp only [List.length_cons]; omega
+  · simp only [Option.some.injEq] at h; subst h; simp only [List.length_cons]; omega
+  · split at h
+    · simp only [Option.some.injEq] at h; subst h; simp
+    · cases h
+  · cases h
+
+theorem prog_mOpsComp : Prog mOpsComp := by
+  intro s r h
+  unfold mOpsComp at h
+  split at h
+  · simp only [Option.some.injEq] at h; subst h; simp only [List.length_cons]; omega
+  · split at h
+    · simp only [Option.some.injEq] at h; subst h; simp
+    · cases h
+  · cases h
+
+theorem prog_mOpsBool : Prog mOpsBool := by
+  intro s r h
+  unfold mOpsBool at h
+  split at h
+  · simp only [Option.some.injEq] at h; subst h; simp only [List.length_cons]; omega
+  · simp only [Option.some.injEq] at h; subst h; simp only [List.length_cons]; omega
+  · cases h
+
+theorem prog_mSysLit : Prog mSysLit := by
+  intro s r h
+  unfold mSysLit at h
+  split at h
+  · rename_i r0
+    split at h
+    · rename_i x r2 heq
+      simp only [Option.some.injEq] at h; subst h
+      have := dropWhile_le (· != '"') r0
+      rw [heq] at this
+      simp only [List.length_cons] at this ⊢; omega
+    · cases h
+  · rename_i r0
+    split at h
+    · rename_i x r2 heq
+      simp only [Option.some.injEq] at h; subst h
+      have := dropWhile_le (· != '\'') r0
+      rw [heq] at this
+      simp only [List.length_cons] at this ⊢; omega
+    · cases h
+  · cases h
+
+theorem prog_mWhitespace : Prog mWhitespace := by
+  intro s r h
+  unfold mWhitespace at h
+  split at h
+  · rename_i c r0
+    split at h
+    · simp only [Option.some.injEq] at h; subst h
+      have := dropWhile_le isSpace r0
+      simp only [List.length_cons]; omega
+    · cases h
+  · cases h
+
+theorem prog_mOther : Prog mOther := by
+  intro s r h
+  unfold mOther at h
+  split at h
+  · split at h
+    · cases h
+    · simp only [Option.some.injEq] at h; subst h; simp
+  · cases h
+
+theorem prog_qName : Prog qName := qName_lt
+
+theorem prog_qNameThen (suffix : Str) : Prog (qNameThen suffix) := by
+  intro s r h
+  unfold qNameThen at h
+  cases h1 : qName s with
+  | none => simp [h1] at h
+  | some r1 =>
+    simp only [h1, Option.bind_some] at h
+    have a := qName_lt _ _ h1
+    have b := lit_len _ _ _ h
+    omega
+
+theorem prog_mPyxformRef : Prog mPyxformRef := by
+  intro s r h
+  unfold mPyxformRef at h
+  cases h1 : lit ['$', '{'] s with
+  | none => simp [h1] at h
+  | some r1 =>
+    simp only [h1, Option.bind_some] at h
+    have a := lit_len _ _ _ h1
+    obtain ⟨r2, h2, h3⟩ := Option.bind_eq_some_iff.1 h
+    have c := lit_len _ _ _ h3
+    split at h2
+    · rename_i x hx
+      have d := lit_len _ _ _ hx
+      have b := qName_lt _ _ h2
+      simp only [List.length_cons, List.length_nil] at a c; omega
+    · have b := qName_lt _ _ h2
+      simp only [List.length_cons, List.length_nil] at a c; omega
+
+theorem pinnedRules_eq : pinnedRules = [
+    ("DATETIME", mDateTime), ("DATE", mDate), ("TIME", mTime), ("NUMBER", mNumber), ("OPS_MATH", mOpsMath),
+    ("OPS_COMP", mOpsComp), ("OPS_BOOL", mOpsBool), ("OPS_UNION", lit ['|']), ("OPEN_PAREN", lit ['(']),
+    ("CLOSE_PAREN", lit [')']), ("BRACKET", lit ['[', ']', '{', '}']), ("PARENT_REF", lit ['.', '.']),
+    ("SELF_REF", lit ['.']), ("PATH_SEP", lit ['/']), ("SYSTEM_LITERAL", mSysLit), ("COMMA", lit [',']),
+    ("WHITESPACE", mWhitespace), ("PYXFORM_REF", mPyxformRef), ("FUNC_CALL", qNameThen ['(']),
+    ("XPATH_PRED_START", qNameThen ['[']), ("XPATH_PRED_END", lit [']']), ("URI_SCHEME", qNameThen [':', '/', '/']),
+    ("NAME", qName), ("PYXFORM_REF_START", lit ['$', '{']), ("PYXFORM_REF_END", lit ['}']), ("OTHER", mOther)] := rfl
+
+theorem pinned_prog : ∀ p ∈ pinnedRules, Prog p.2 := by
+  rw [pinnedRules_eq]
+  intro p hp
+  simp only [List.mem_cons, List.mem_nil_iff, or_false] at hp
+  rcases hp with rfl | rfl | rfl | rfl | rfl | rfl | rfl | rfl | rfl | rfl | rfl | rfl | rfl | rfl | rfl | rfl | rfl |
+    rfl | rfl | rfl | rfl | rfl | rfl | rfl | rfl | rfl
+  all_goals first
+    | exact prog_mDateTime | exact prog_mDate | exact prog_mTime | exact prog_mNumber | exact prog_mOpsMath
+    | exact prog_mOpsComp | exact prog_mOpsBool | exact prog_mSysLit | exact prog_mWhitespace
+    | exact prog_mPyxformRef | exact prog_qNameThen _ | exact prog_qName | exact prog_mOther
+    | exact prog_lit _ (by simp)
+
+theorem firstMatch_pos : ∀ (rules : Rules), (∀ p ∈ rules, Prog p.2) → ∀ (s : Str) (n : String) (k : Nat),
+    firstMatch rules s = some (n, k) → 0 < k ∧ k ≤ s.length
+  | [], _, s, n, k, h => by simp [firstMatch] at h
+  | (n', m) :: rs, hp, s, n, k, h => by
+    simp only [firstMatch] at h
+    split at h
+    · rename_i rest hm
+      simp only [Option.some.injEq, Prod.mk.injEq] at h
+      have := hp (n', m) (by simp) s rest hm
+      omega
+    · exact firstMatch_pos rs (fun p hp' => hp p (List.mem_cons_of_mem _ hp')) s n k h
+
+theorem firstMatch_isSome_of_mem : ∀ (rules : Rules) (s : Str) (p : String × (Str → Option Str)) (r : Str),
+    p ∈ rules → p.2 s = some r → ∃ x, firstMatch rules s = some x
+  | [], _, _, _, hp, _ => by simp at hp
+  | (n', m) :: rs, s, p, r, hp, hm => by
+    simp only [firstMatch]
+    split
+    · exact ⟨_, rfl⟩
+    · rename_i hnone
+      rcases List.mem_cons.1 hp with rfl | hp
+      · simp only at hm; rw [hm] at hnone; cases hnone
+      · exact firstMatch_isSome_of_mem rs s p r hp hm
+
+/-- at every non-empty position some rule of the pinned lexicon matches (OTHER, or WHITESPACE for `\n`) -/
+theorem firstMatch_total (c : Char) (cs : Str) : ∃ x, firstMatch pinnedRules (c :: cs) = some x := by
+  by_cases hc : c = '\n'
+  · subst hc
+    exact firstMatch_isSome_of_mem pinnedRules _ ("WHITESPACE", mWhitespace) (cs.dropWhile isSpace)
+      (by rw [pinnedRules_eq]; simp) (by simp [mWhitespace, isSpace])
+  · exact firstMatch_isSome_of_mem pinnedRules _ ("OTHER", mOther) cs
+      (by rw [pinnedRules_eq]; simp) (by simp [mOther, hc])
+
+theorem scanAux_rem_nil : ∀ (f : Nat) (s : Str), s.length < f → (scanAux pinnedRules f s).2 = []
+  | 0, s, h => absurd h (Nat.not_lt_zero _)
+  | f + 1, s, h => by
+    rw [scanAux]
+    cases s with
+    | nil => rw [firstMatch_nil]
+    | cons c cs =>
+      obtain ⟨⟨n, k⟩, hx⟩ := firstMatch_total c cs
+      obtain ⟨hk1, hk2⟩ := firstMatch_pos pinnedRules pinned_prog _ n k hx
+      rw [hx]
+      have hk : ¬ (k = 0) := by omega
+      simp only [hk, if_false]
+      apply scanAux_rem_nil f
+      simp only [List.length_drop]
+      omega
+
 end Pyxv.Lexer
